@@ -101,10 +101,15 @@ def plan_options(rng, spec):
 def plan(rng, idx, tier):
     spec = rng.weighted([(gmodels.AMR, 5), (gmodels.DEFAULT, 3), (gmodels.custom(idx), 2), (gmodels.NOOP, 1)])
     ng = rng.weighted([(1, 4), (2, 3), (3, 2), (4, 1)])
+    many = idx % 500 == 250
+    if many:
+        # a long stream of tiny graphs: counters, flush intervals and other thresholds in the number of graphs
+        ng = rng.sub('many').pick([130, 300, 1100])
     graphs = []
     for j in range(ng):
         gr = rng.sub('g', j)
-        ccfg = gcontent.ContentCfg(max_nodes=gr.weighted([(1, 3), (2, 3), (3, 3), (4, 3), (5, 3), (9, 1), (13, 1)]),
+        ccfg = gcontent.ContentCfg(max_nodes=(gr.pick([1, 1, 2]) if many else
+                                              gr.weighted([(1, 3), (2, 3), (3, 3), (4, 3), (5, 3), (9, 1), (13, 1)])),
                                    max_attrs=gr.weighted([(2, 6), (5, 1)]), reifiable=gr.pick([0.0, 0.3, 0.6]),
                                    exotic=gr.pick([0.0, 0.0, 0.0, 0.15]),
                                    reified_nodes=gr.pick([0.0, 0.3, 0.8]), p_inverted_attr=0.03,
